@@ -60,7 +60,8 @@ func ctlHelper() int {
 		w, _, _ := kPipe()
 		r := &forkexec.Runner{Args: append([]string{probePath}, s...), Env: []string{"A=B"}, Files: []uintptr{nullFile().Fd(), w.Fd(), nullFile().Fd()},
 			Ptrace: true, Seccomp: kFilterAllowAllBut([]string{"getppid"}, nil).SockFprog(),
-			Credential: &syscall.Credential{Uid: 65534, Gid: 65534, NoSetGroups: true}}
+			Credential: &syscall.Credential{Uid: 65534, Gid: 65534, NoSetGroups: true},
+			SyncFunc:   func(pid int) error { ctlAnnounce("pt sync"); return nil }}
 		tr := ptracer.Tracer{Handler: ctlTraceHandler{}, Runner: r, Limit: bigLimit}
 		ctlAnnounce("pt start")
 		tr.Trace(context.Background())
@@ -84,7 +85,9 @@ func ctlHelper() int {
 		} else {
 			s = append(s, "exit", "0")
 		}
-		kRunPtrace(context.Background(), &kOpts{script: s, filter: kFilterAllowAllBut([]string{"getppid"}, nil), handler: &recHandler{}})
+		// (with a sync callback: one more announced point, at which the child is parked on the sync socket)
+		kRunPtrace(context.Background(), &kOpts{script: s, filter: kFilterAllowAllBut([]string{"getppid"}, nil), handler: &recHandler{},
+			syncFunc: func(pid int) error { ctlAnnounce("pt sync"); return nil }})
 		ctlAnnounce("pt done")
 	default:
 		n := 0
